@@ -186,6 +186,13 @@ def sz1(F, R):
                         vname = args[1][1].split("::")[-1]
                         fromin = mentions(args[0], lambda x: x[0] == "call" and x[1].split("::")[-1] in ("newtype_variant", "newtype_variant_seed"))
                         built[vname] = (b, site, [fromin])
+                # ... the same once the combinator is part of the control flow: a call of the variant's constructor function
+                c = t["callee"]
+                if (c.get("decl") or "").startswith(adt + "::") and c.get("synthetic") and (c.get("decl") or "").split("::")[-1] in variants:
+                    args = [strip_load(deref_addr(b, a)) for a in b.call_args(t, site)]
+                    fromin = all(mentions(a, lambda x: x[0] == "call" and x[1].split("::")[-1] in ("newtype_variant", "newtype_variant_seed"))
+                                 for a in args) and bool(args)
+                    built[c["decl"].split("::")[-1]] = (b, site, [fromin])
         for v in variants:
             if v not in built:
                 R.bad("SZ1", "SZ1/%s::%s/variant-not-read" % (adt, v), "(lib)", "variant %s of %s is never constructed by the reader" % (v, adt))
